@@ -1077,6 +1077,55 @@ impl Drop for VersionRef<'_> {
     }
 }
 
+/////////////////////////////////////////// PinnedCursor ///////////////////////////////////////////
+
+/// A cursor that keeps the version it scans referenced for as long as the cursor lives, so that
+/// the SSTs it opens lazily cannot be retired by a concurrent compaction.
+pub(crate) struct PinnedCursor<'a, C: Cursor> {
+    // NOTE:  Fields drop in declaration order; the cursor goes before the reference that pins it.
+    cursor: C,
+    _version: VersionRef<'a>,
+}
+
+impl<'a, C: Cursor> PinnedCursor<'a, C> {
+    pub(crate) fn new(cursor: C, version: VersionRef<'a>) -> Self {
+        Self {
+            cursor,
+            _version: version,
+        }
+    }
+}
+
+impl<C: Cursor> Cursor for PinnedCursor<'_, C> {
+    fn seek_to_first(&mut self) -> Result<(), SError> {
+        self.cursor.seek_to_first()
+    }
+
+    fn seek_to_last(&mut self) -> Result<(), SError> {
+        self.cursor.seek_to_last()
+    }
+
+    fn seek(&mut self, key: &[u8]) -> Result<(), SError> {
+        self.cursor.seek(key)
+    }
+
+    fn prev(&mut self) -> Result<(), SError> {
+        self.cursor.prev()
+    }
+
+    fn next(&mut self) -> Result<(), SError> {
+        self.cursor.next()
+    }
+
+    fn key(&self) -> Option<KeyRef<'_>> {
+        self.cursor.key()
+    }
+
+    fn value(&self) -> Option<&[u8]> {
+        self.cursor.value()
+    }
+}
+
 ////////////////////////////////////////////// LsmTree /////////////////////////////////////////////
 
 pub struct LsmTree {
@@ -1620,7 +1669,7 @@ impl LsmTree {
         let version_scan = version.range_scan(start_bound, end_bound, u64::MAX)?;
         let cursor = PruningCursor::new(version_scan, u64::MAX)?;
         let cursor = BoundsCursor::new(cursor, start_bound, end_bound)?;
-        Ok(cursor)
+        Ok(PinnedCursor::new(cursor, version))
     }
 }
 
